@@ -540,6 +540,33 @@ func c08ContentLengthStrict(c *Ctx) {
 			}
 		}
 	}
+	// 'no length' only when the field is absent
+	{
+		bad := ""
+		n := 0
+		for _, st := range c.P.StoresTo(fn, "nbhttp.Parser.contentLength") {
+			if k, ok := ir.ConstInt(st.Val); !ok || k >= 0 {
+				continue
+			}
+			n++
+			absent := fi.HasFact(st, func(ft ir.Fact) bool {
+				e, zero, ok := ir.ZeroTest(ft.Cond, ft.Truth)
+				if !ok || !zero {
+					return false
+				}
+				x, isLen := ir.IsLenOf(e)
+				if !isLen {
+					return false
+				}
+				_, isLookup := ir.Resolve(x).(*ssa.Lookup)
+				return isLookup
+			})
+			if !absent {
+				bad = "the message is given no length (contentLength = -1) at " + c.Pos(st) + " on a path on which the field may be present with an empty value: \"Content-Length:\" followed by blanks only is not a number, yet the message is framed as if it had no body and what follows is parsed as the next message (net/http: invalid empty Content-Length)"
+			}
+		}
+		c.Cond(bad == "" && n > 0, ob, fnKey(c.P, fn, "an empty value is not 'no length'"), c.FnPos(fn), "contentLength = -1 only on the field-absent edge", bad)
+	}
 	c.Cond(all, ob, fnKey(c.P, fn, "repeated field agrees"), c.FnPos(fn), "every further value is compared with the first",
 		"parseContentLength looks at the first Content-Length value only (Header.Get): \"Content-Length: 3\" followed by \"Content-Length: 5\" is framed with 3 and the rest is parsed as the next message (net/http refuses the message)")
 }
